@@ -208,6 +208,7 @@ def run(c):
     changed |= c.write_generated('C11Refs.lean', X.refs_text())
     if changed: c.log('generated tables changed')
     broken = c.build_and_audit()
+    c.log('build + audit done')
     b = Batch()
     st = ST.Streams(c, b)
     st.items()
@@ -215,8 +216,11 @@ def run(c):
     st.chains()
     st.sequences()
     st.containers()
+    c.log('%d model requests generated' % len(b.lines))
     b.run(c)
+    c.log('model answers compared')
     st.real_only()
+    c.log('real-only streams done')
     st.finish()
     for name in broken:
         st.search_after_broken_proof(name)
